@@ -140,8 +140,6 @@ Section KeysProofs.
   Variable bip_child_h : xpriv -> N -> xpriv.
   Variable bip_priv : xpriv -> bytes.
   Variable lnd_key : N -> xpriv -> N -> N -> bytes.
-  Variable point : Type.
-  Variable pub_of : bytes -> point.
 
   Local Notation derive := (derive hkdf sha xpriv bip_master bip_child_h bip_priv lnd_key).
   Local Notation derive_kid := (derive_with_keys_id hkdf sha xpriv bip_master bip_child_h bip_priv lnd_key).
@@ -151,7 +149,6 @@ Section KeysProofs.
   Local Notation step := (step hkdf sha xpriv bip_master bip_child_h bip_priv lnd_key).
   Local Notation run := (run hkdf sha xpriv bip_master bip_child_h bip_priv lnd_key).
   Local Notation restore_chans := (restore_chans hkdf sha xpriv bip_master bip_child_h bip_priv lnd_key).
-  Local Notation observe := (observe sha point pub_of).
 
   Definition same_base (seed : bytes) (st : style) (net : N) (m : mgr) : Prop :=
     m_seed m = seed /\ m_style m = st /\ m_net m = net.
